@@ -3,6 +3,8 @@
 pub uninterp spec fn Y(z: Zoned) -> i16;     // calendar year
 pub uninterp spec fn MO(z: Zoned) -> i8;     // month 1..=12
 pub uninterp spec fn DOY(z: Zoned) -> i16;   // day of year 1..=366
+pub uninterp spec fn D(z: Zoned) -> i8;      // day of month 1..=31
+pub uninterp spec fn S(z: Zoned) -> i8;      // second 0..=59
 pub uninterp spec fn H(z: Zoned) -> i8;      // hour 0..=23
 pub uninterp spec fn MI(z: Zoned) -> i8;     // minute 0..=59
 pub uninterp spec fn IY(z: Zoned) -> i16;    // ISO 8601 week-based year
@@ -10,6 +12,11 @@ pub uninterp spec fn IW(z: Zoned) -> i8;     // ISO week 1..=53
 pub uninterp spec fn TS(z: Zoned) -> int;    // instant (total order used by PartialOrd for Zoned)
 
 pub struct Zoned { pub _opaque: u64 }
+// calendar fact (ASSUMED): within one year the day of the year is determined by, and determines, month and day of month
+#[verifier::external_body]
+pub proof fn axiom_doy_is_month_and_day(a: Zoned, b: Zoned)
+    ensures Y(a) == Y(b) ==> ((DOY(a) == DOY(b)) <==> (MO(a) == MO(b) && D(a) == D(b))),
+{}
 pub struct ISOWeekDate { pub of: Ghost<Zoned> }
 
 impl Clone for Zoned {
@@ -26,6 +33,10 @@ impl Zoned {
     pub fn month(&self) -> (r: i8) ensures r == MO(*self), 1 <= r <= 12, { unimplemented!() }
     #[verifier::external_body]
     pub fn day_of_year(&self) -> (r: i16) ensures r == DOY(*self), 1 <= r <= 366, { unimplemented!() }
+    #[verifier::external_body]
+    pub fn day(&self) -> (r: i8) ensures r == D(*self), 1 <= r <= 31, { unimplemented!() }
+    #[verifier::external_body]
+    pub fn second(&self) -> (r: i8) ensures r == S(*self), 0 <= r <= 59, { unimplemented!() }
     #[verifier::external_body]
     pub fn hour(&self) -> (r: i8) ensures r == H(*self), 0 <= r <= 23, { unimplemented!() }
     #[verifier::external_body]
